@@ -410,10 +410,6 @@ Lemma p_in_range_Low T : a <= T <= b -> pLowT e S T = - (fLow e) T.
 Proof. intro H. apply (Low_in S T (proj1 S_range_Low) (proj2 S_range_Low) H). Qed.
 End Low.
 
-(** ** the transition strength is assembled from the two phases as documented *)
-Lemma alpha_def s T :
-  alpha e s T = (eHighT e s T - eLowT e s T - (pHighT e s T - pLowT e s T) / csqLowT e s T) / 3 / wHighT e s T.
-Proof. unfold alpha. unf. first [reflexivity | ring]. Qed.
 End C10.
 
 (** * Property theorems *)
@@ -444,6 +440,32 @@ Theorem extrapolation_matched_Low : forall e s0,
   matched (fLow e) (dfLow e) (ddfLow e) (tabMaxLow e) (muMaxLowT S) (aMaxLowT S) (epsilonMaxLowT S).
 Proof. intros e s0 H1 H2 H3 H4 H5 H6 S. split; [apply matched_lo_Low|apply matched_hi_Low]; assumption. Qed.
 Print Assumptions extrapolation_matched_Low.
+
+(* ==== END OF CORE ====
+   Everything above this line (the ties between the generated functions and the template, the
+   state after setExtrapolate and the matching of the template coefficients) is what the
+   certified evaluation files Cases/Eval_*.v need.  If a lemma BELOW this line stops proving,
+   the harness compiles the part above on its own (module EvalCore) so that the certified
+   model-vs-implementation comparison is still carried out. *)
+
+(** the transition strength is assembled from the two phases as documented (eq. (34) of
+    [GKvdV20]); proved up to the field identities that hold for the TOTAL inverse of Coq's reals
+    (/ (x * y) = / x * / y without side conditions), so that (...)/3/w, (...)/(3*w), local
+    variables for sub-expressions etc. are all accepted *)
+Lemma alpha_def e s T :
+  alpha e s T = (eHighT e s T - eLowT e s T - (pHighT e s T - pLowT e s T) / csqLowT e s T)
+                / (3 * wHighT e s T).
+Proof.
+  unfold alpha.
+  first [ reflexivity
+        | (cbv zeta; unfold Rdiv; rewrite ?Rinv_mult; ring)
+        | (cbv zeta; unf; unfold Rdiv; rewrite ?Rinv_mult; ring) ].
+Qed.
+Theorem transition_strength_is_as_documented : forall e s T,
+  alpha e s T = (eHighT e s T - eLowT e s T - (pHighT e s T - pLowT e s T) / csqLowT e s T)
+                / (3 * wHighT e s T).
+Proof. exact alpha_def. Qed.
+Print Assumptions transition_strength_is_as_documented.
 
 Theorem continuous_across_range_ends_High : forall e s0,
   tabMinHigh e < tabMaxHigh e -> 0 < tabMinHigh e ->
@@ -549,11 +571,15 @@ Theorem pressure_is_minus_table_in_range : forall e s0 T,
 Proof. intros e s0 T. split; intro H; [apply p_in_range_High|apply p_in_range_Low]; exact H. Qed.
 Print Assumptions pressure_is_minus_table_in_range.
 
-(** frame condition (facts extracted from every file under src/WallGo on this run): the 16
-    modelled attributes are assigned only by __init__ and setExtrapolate of the class itself --
-    no other method, no subclass, no other module, no setattr/__dict__ -- and setExtrapolate
-    assigns all of them, so the state every other theorem speaks about is the state the
-    EOS functions read until the next call of setExtrapolate *)
+(** frame condition (facts extracted from every file under src/WallGo on this run, see
+    tools/gen_thermo.py frame_facts): the 16 modelled attributes are assigned only by __init__ and
+    setExtrapolate of the class itself -- by no other method, no function outside the class
+    (whatever the name of the object it stores to), no subclass, no other module, and by no
+    dynamic access that can reach a Thermodynamics object (setattr/delattr/vars/__dict__/
+    X.__setattr__/exec/eval in thermodynamics.py or on an expression naming a thermodynamics
+    object, or anywhere with a literal modelled name) -- and setExtrapolate assigns all of them,
+    so the state every other theorem speaks about is the state the EOS functions read until the
+    next call of setExtrapolate *)
 Theorem only_init_and_setExtrapolate_write_the_modelled_state :
   forallb (fun w => existsb (String.eqb (fst w)) ("__init__" :: "setExtrapolate" :: nil)%string)
           writers = true /\
@@ -566,6 +592,17 @@ Proof.
                          | right; right; left; reflexivity]|vm_compute; reflexivity].
 Qed.
 Print Assumptions only_init_and_setExtrapolate_write_the_modelled_state.
+
+(** the functions the theorems are about are the functions a caller reaches: no method of the
+    class is rebound on an instance (self.csqLowT = cache(self.csqLowT)), on the class from
+    outside its body (Thermodynamics.csqLowT = ...), in a subclass defined in src/WallGo, or
+    through a base class other than object; and the two free-energy members (the tables fHigh,
+    fLow ... of the environment) are bound by __init__ only *)
+Theorem modelled_methods_and_tables_are_not_rebound :
+  method_rebindings = nil /\
+  forallb (fun w => String.eqb (fst w) "__init__") env_writers = true.
+Proof. split; [reflexivity | vm_compute; reflexivity]. Qed.
+Print Assumptions modelled_methods_and_tables_are_not_rebound.
 
 (** non-vacuity: a concrete table satisfying every hypothesis (ideal gas f = -T^4) *)
 Example hypotheses_satisfiable :
